@@ -88,7 +88,7 @@ theorem d_is_proper_subset : Gen.Ex.Set._is_proper_subset_of env1 (setObj ra) (s
     rw [d_is_subset nfc n ra rb ha hb, d_is_equal nfc n ra rb ha hb]
     unfold homoRes
     simp only [hk, Bool.false_eq_true, ↓reduceIte, ok_bind, truthy_bool]
-    cases ra.all (memN nfc rb) <;> rfl
+    cases ra.all (memN nfc rb) <;> cases rb.all (memN nfc ra) <;> rfl
 
 theorem d_is_proper_superset : Gen.Ex.Set._is_proper_superset_of env1 (setObj ra) (setObj rb) =
     homoRes ra rb (.ok (.bool (rb.all (memN nfc ra) && !(ra.all (memN nfc rb) && rb.all (memN nfc ra))))) := by
@@ -101,7 +101,7 @@ theorem d_is_proper_superset : Gen.Ex.Set._is_proper_superset_of env1 (setObj ra
     rw [d_is_superset nfc n ra rb ha hb, d_is_equal nfc n ra rb ha hb]
     unfold homoRes
     simp only [hk, Bool.false_eq_true, ↓reduceIte, ok_bind, truthy_bool]
-    cases rb.all (memN nfc ra) <;> rfl
+    cases ra.all (memN nfc rb) <;> cases rb.all (memN nfc ra) <;> rfl
 
 end decorated
 
@@ -204,6 +204,11 @@ theorem ev_fs_symdiff (env : Py.Env) (xs ys : List Obj) :
       (filterE (fun e => do pure (!(← fsContains env ys e))) xs >>= fun l =>
         filterE (fun e => do pure (!(← fsContains env xs e))) ys >>= fun r =>
           fsOfList env (l ++ r) >>= fun s => pure (.fset s)) := rfl
+theorem ev_op_or_fset (env : Py.Env) (xs ys : List Obj) : Py.op_or env (.fset xs) (.fset ys) = Py.fs_union env (.fset xs) (.fset ys) := rfl
+theorem ev_op_and_fset (env : Py.Env) (xs ys : List Obj) :
+    Py.op_and env (.fset xs) (.fset ys) = Py.fs_intersection env (.fset xs) (.fset ys) := rfl
+theorem ev_op_xor_fset (env : Py.Env) (xs ys : List Obj) :
+    Py.op_xor env (.fset xs) (.fset ys) = Py.fs_symmetric_difference env (.fset xs) (.fset ys) := rfl
 theorem ev_set_new_fset (xs : List Obj) : Gen.Ex.Set.__new__ env1 (.fset xs) = Gen.Ex.Set.__new__ env1 (.list xs) := rfl
 
 theorem set_new_ewRes (l : List Scalar) : Gen.Ex.Set.__new__ env1 (.list (l.map embS)) = ewRes nfc (.ok l) := gen_set_new nfc n l
@@ -211,13 +216,13 @@ theorem set_new_ewRes (l : List Scalar) : Gen.Ex.Set.__new__ env1 (.list (l.map 
 theorem w_union (ra rb : List Scalar) :
     Gen.Ex.Set._create_union_with.__wrapped__ env1 (setObj ra) (setObj rb) = ewRes nfc (.ok (dedupK normS (ra ++ rb))) := by
   unfold Gen.Ex.Set._create_union_with.__wrapped__
-  simp only [ev_value_set, ok_bind, ev_fs_union, ← List.map_append, fsOfList_ok (sameSpec_embS nfc n), pure_eq_ok, ev_set_new_fset,
+  simp only [ev_value_set, ok_bind, ev_op_or_fset, ev_fs_union, ← List.map_append, fsOfList_ok (sameSpec_embS nfc n), pure_eq_ok, ev_set_new_fset,
     set_new_ewRes]
 
 theorem w_intersection (ra rb : List Scalar) :
     Gen.Ex.Set._create_intersection_with.__wrapped__ env1 (setObj ra) (setObj rb) = ewRes nfc (.ok (ra.filter (memN nfc rb))) := by
   unfold Gen.Ex.Set._create_intersection_with.__wrapped__
-  simp only [ev_value_set, ok_bind, ev_fs_intersection, filterE_contains_ok (sameSpec_embS nfc n), pure_eq_ok, ev_set_new_fset,
+  simp only [ev_value_set, ok_bind, ev_op_and_fset, ev_fs_intersection, filterE_contains_ok (sameSpec_embS nfc n), pure_eq_ok, ev_set_new_fset,
     set_new_ewRes]
   rfl
 
@@ -225,7 +230,7 @@ theorem w_symdiff (ra rb : List Scalar) :
     Gen.Ex.Set._create_disjunctive_union_with.__wrapped__ env1 (setObj ra) (setObj rb) =
       ewRes nfc (.ok (dedupK normS (ra.filter (fun x => !memN nfc rb x) ++ rb.filter (fun x => !memN nfc ra x)))) := by
   unfold Gen.Ex.Set._create_disjunctive_union_with.__wrapped__
-  simp only [ev_value_set, ok_bind, ev_fs_symdiff, filterE_not_contains_ok (sameSpec_embS nfc n)]
+  simp only [ev_value_set, ok_bind, ev_op_xor_fset, ev_fs_symdiff, filterE_not_contains_ok (sameSpec_embS nfc n)]
   simp only [ok_bind, pure_eq_ok, ← List.map_append, fsOfList_ok (sameSpec_embS nfc n), ev_set_new_fset, set_new_ewRes]
   rfl
 
